@@ -617,6 +617,8 @@ func init() {
 					construct := ord.next("pointer comparison " + types.ExprString(be))
 					if why, ok := permitted[u.Name()]; ok {
 						obs = append(obs, mkOb(c, rid, u, construct, be, Proved, "permitted: "+why, false))
+					} else if via, ok := c.privateHelperOf(u.Obj, func(n string) bool { _, p := permitted[n]; return p }, 0); ok {
+						obs = append(obs, mkOb(c, rid, u, construct, be, Proved, "private helper of the permitted "+via, false))
 					} else {
 						obs = append(obs, mkOb(c, rid, u, construct, be, Undecided, "two lisp values are compared by allocation: equal values that live in different allocations (a quoted `false`, a copied element) are told apart, so the decision taken here differs between values the language considers the same", true))
 					}
